@@ -103,6 +103,165 @@ pub fn run(src: &str, what: &str) -> Outcome {
     }
 }
 
+// ---------------------------------------------------------------- sentence costs
+/// reference minimum cost per rule (None: the rule derives no string), by relaxation over u64
+fn ref_min(prods: &[(usize, Vec<Symbol<u32>>)], nr: usize, tc: &[u8]) -> Vec<Option<u64>> {
+    let mut m: Vec<Option<u64>> = vec![None; nr];
+    loop {
+        let mut ch = false;
+        for (r, syms) in prods {
+            let mut c: Option<u64> = Some(0);
+            for s in syms {
+                c = match (c, s) {
+                    (Some(c0), Symbol::Token(t)) => Some(c0 + tc[usize::from(*t)] as u64),
+                    (Some(c0), Symbol::Rule(q)) => m[usize::from(*q)].map(|x| c0 + x),
+                    (None, _) => None,
+                };
+            }
+            if let Some(c) = c { if m[*r].map_or(true, |x| c < x) { m[*r] = Some(c); ch = true; } }
+        }
+        if !ch { return m; }
+    }
+}
+/// does `rule` derive exactly `toks`?  (span table to a fixed point; fine for short strings)
+fn derives(prods: &[(usize, Vec<Symbol<u32>>)], nr: usize, rule: usize, toks: &[u32]) -> bool {
+    let n = toks.len();
+    // d[r][i][j]: rule r derives toks[i..j]
+    let mut d = vec![vec![vec![false; n + 1]; n + 1]; nr];
+    loop {
+        let mut ch = false;
+        for (r, syms) in prods {
+            for i in 0..=n {
+                // positions reachable after matching a prefix of syms starting at i
+                let mut cur = vec![false; n + 1];
+                cur[i] = true;
+                for s in syms {
+                    let mut nxt = vec![false; n + 1];
+                    for a in i..=n {
+                        if !cur[a] { continue; }
+                        match s {
+                            Symbol::Token(t) => { if a < n && toks[a] == u32::from(*t) { nxt[a + 1] = true; } }
+                            Symbol::Rule(q) => { for b in a..=n { if d[usize::from(*q)][a][b] { nxt[b] = true; } } }
+                        }
+                    }
+                    cur = nxt;
+                }
+                for j in i..=n { if cur[j] && !d[*r][i][j] { d[*r][i][j] = true; ch = true; } }
+            }
+        }
+        if !ch { break; }
+    }
+    d[rule][0][n]
+}
+
+fn check_costs(src: &str, costs: &[u8]) -> Result<(), String> {
+    let grm = match YaccGrammar::<u32>::new_with_storaget(YaccKind::Original(YaccOriginalActionKind::NoAction), src) { Ok(g) => g, Err(_) => return Ok(()) };
+    let nr = usize::from(grm.rules_len());
+    let nt = usize::from(grm.tokens_len());
+    let np = usize::from(grm.prods_len());
+    let prods: Vec<(usize, Vec<Symbol<u32>>)> = (0..np).map(|p| (usize::from(grm.prod_to_rule(PIdx(p as u32))), grm.prod(PIdx(p as u32)).to_vec())).collect();
+    let tc: Vec<u8> = (0..nt).map(|t| costs[t % costs.len()]).collect();
+    let rmin = ref_min(&prods, nr, &tc);
+    let rf = reference(&grm);
+    let sg = grm.sentence_generator(|t| tc[usize::from(t)]);
+    let productive = rmin.iter().all(|x| x.is_some());
+    for r in 0..nr {
+        let got = sg.min_sentence_cost(RIdx(r as u32));
+        if let Some(m) = rmin[r] {
+            if m < u16::MAX as u64 && got as u64 != m { return Err(format!("min_sentence_cost(rule {}) is {} but the cheapest derivable string costs {}", r, got, m)); }
+        }
+    }
+    if !productive { return Ok(()); }
+    // maximum: judged only when every token costs something and no rule derives just itself
+    // (then: unbounded iff a recursive rule is reachable)
+    let positive = tc.iter().all(|c| *c > 0);
+    let selfderiving = crate::c07::cyclic(&grm);
+    if positive && !selfderiving {
+        // finite maxima over the acyclic part
+        let mut mx: Vec<Option<u64>> = vec![None; nr];
+        let unb: Vec<bool> = (0..nr).map(|r| rf.reach[r][r] || (0..nr).any(|q| rf.reach[r][q] && rf.reach[q][q])).collect();
+        for _ in 0..=nr {
+            for (r, syms) in &prods {
+                if unb[*r] { continue; }
+                let mut c: Option<u64> = Some(0);
+                for s in syms {
+                    c = match (c, s) {
+                        (Some(c0), Symbol::Token(t)) => Some(c0 + tc[usize::from(*t)] as u64),
+                        (Some(c0), Symbol::Rule(q)) => mx[usize::from(*q)].map(|x| c0 + x),
+                        (None, _) => None,
+                    };
+                }
+                if let Some(c) = c { if mx[*r].map_or(true, |x| c > x) { mx[*r] = Some(c); } }
+            }
+        }
+        for r in 0..nr {
+            let got = sg.max_sentence_cost(RIdx(r as u32));
+            if unb[r] { if got.is_some() { return Err(format!("max_sentence_cost(rule {}) is {:?} but the rule derives strings of unbounded cost", r, got)); } }
+            else if let Some(m) = mx[r] { if m < u16::MAX as u64 && got.map(|x| x as u64) != Some(m) { return Err(format!("max_sentence_cost(rule {}) is {:?} but the dearest derivable string costs {}", r, got, m)); } }
+        }
+    }
+    // sentences: judged when every token costs something and no rule derives just itself (otherwise a cheapest
+    // production can lead back to its own rule at no cost and there are infinitely many minimal sentences)
+    if !positive || selfderiving { return Ok(()); }
+    for r in 0..nr {
+        let m = match rmin[r] { Some(m) if m < 40 => m, _ => continue };
+        let sent = sg.min_sentence(RIdx(r as u32));
+        let c: u64 = sent.iter().map(|t| tc[usize::from(*t)] as u64).sum();
+        let st: Vec<u32> = sent.iter().map(|t| u32::from(*t)).collect();
+        if c != m { return Err(format!("min_sentence(rule {}) costs {} but the minimum is {}", r, c, m)); }
+        if st.len() <= 12 && !derives(&prods, nr, r, &st) { return Err(format!("min_sentence(rule {}) = {:?} is not derivable from the rule", r, st)); }
+        {
+            let all = sg.min_sentences(RIdx(r as u32));
+            if all.is_empty() { return Err(format!("min_sentences(rule {}) is empty", r)); }
+            for s2 in all.iter().take(50) {
+                let c2: u64 = s2.iter().map(|t| tc[usize::from(*t)] as u64).sum();
+                let st2: Vec<u32> = s2.iter().map(|t| u32::from(*t)).collect();
+                if c2 != m { return Err(format!("a sentence of min_sentences(rule {}) costs {} but the minimum is {}", r, c2, m)); }
+                if st2.len() <= 12 && !derives(&prods, nr, r, &st2) { return Err(format!("a sentence of min_sentences(rule {}) = {:?} is not derivable", r, st2)); }
+            }
+        }
+    }
+    Ok(())
+}
+
+pub fn run_costs(src: &str, costs: &[u8]) -> Outcome {
+    let expected = "min/max sentence costs equal the true extremes, minimal sentences are derivable and have that cost, promptly".to_string();
+    let (tx, rx) = mpsc::channel();
+    let (s, c) = (src.to_string(), costs.to_vec());
+    std::thread::spawn(move || { let _ = tx.send(catch_unwind(AssertUnwindSafe(|| check_costs(&s, &c)))); });
+    match rx.recv_timeout(Duration::from_millis(3000)) {
+        Err(_) => Outcome { fails: true, observed: "no result after 3 s (hang)".into(), expected },
+        Ok(Err(_)) => Outcome { fails: true, observed: "panic".into(), expected },
+        Ok(Ok(Ok(()))) => Outcome { fails: false, observed: "agree".into(), expected },
+        Ok(Ok(Err(e))) => Outcome { fails: true, observed: e, expected },
+    }
+}
+
+const COST_GRMS: &[&str] = &[
+    "%start S\n%%\nS: 'a' | A;\nA: B;\nB: A;",
+    "%start S\n%%\nS: 'a' | A;\nA: A 'x';",
+    "%start S\n%%\nS: 'a' S 'b' | 'c';",
+    "%start S\n%%\nS: A B;\nA: 'a' | ;\nB: 'b' B | 'c';",
+    "%start S\n%%\nS: A A A;\nA: 'a' 'b' | 'c';",
+];
+pub fn search_costs(tier: &str) -> Option<Value> {
+    let cost_sets: [&[u8]; 4] = [&[1], &[1, 2, 3], &[0, 1], &[255, 1]];
+    for g in COST_GRMS.iter().chain(EXTRA.iter()).chain(grms::FIXED.iter()) {
+        for cs in cost_sets {
+            let o = run_costs(g, cs);
+            if o.fails { return Some(witness("c17_costs", json!({"grammar": g, "costs": cs}), &o)); }
+        }
+    }
+    let n = if tier == "thorough" { 20000 } else { 2000 };
+    for seed in 1..=n {
+        let g = grms::random(seed);
+        let cs = cost_sets[(seed % 4) as usize];
+        let o = run_costs(&g, cs);
+        if o.fails { return Some(witness("c17_costs", json!({"grammar": g, "costs": cs}), &o)); }
+    }
+    None
+}
+
 const EXTRA: &[&str] = &[
     "%start S\n%%\nS: B C 'd';\nB: 'b';\nC: 'c' | ;",
     "%start S\n%%\nS: X 'z';\nX: Y;\nY: W;\nW: ;",
@@ -111,6 +270,7 @@ const EXTRA: &[&str] = &[
 ];
 
 pub fn search(unit: &str, _tag: &str, tier: &str) -> Option<Value> {
+    if unit == "c17_costs" { return search_costs(tier); }
     let what = match unit { "c17_firsts" => "firsts", "c17_follows" => "follows", "c17_haspath" => "haspath", _ => "all" };
     for g in EXTRA.iter().chain(grms::FIXED.iter()) {
         let o = run(g, what);
